@@ -91,6 +91,7 @@ def run_case(case):
     cache = TrieFrontierCache()
     res.emit("fog.cnew", "ok")
     res.emit("hx.wnew", "ok")
+    res.emit("hx.wdnew", "ok")
     regs = {}           # id(node object) -> model register
     met = {}
     nsteps = 0
@@ -142,12 +143,14 @@ def run_case(case):
                 if cached is not None:
                     res.emit("hx.travfromd %d %s" % (regs[id(cached[0])], nibstr(cached[1])), hexlib.fmt_exc(e))
                 res.emit("hx.wstep 0 %s %d" % (nibstr(p), 1 if use_cache else 0), hexlib.fmt_exc(e))
+                res.emit("hx.wdstep 0 %s %d" % (nibstr(p), 1 if use_cache else 0), hexlib.fmt_exc(e))
                 if cached is None:
                     res.fail("walk-missing-node", "traverse(%s) from the root raised %r on a complete database" % (nibstr(p), e))
                     return False
                 cache.delete(p)
                 res.emit("fog.cdel %s" % nibstr(p), "ok")
                 res.emit("hx.wcdel %s" % nibstr(p), "ok")
+                res.emit("hx.wdcdel %s" % nibstr(p), "ok")
                 res.tags.add("stale-cache-entry-dropped")
                 continue
             break
@@ -183,6 +186,9 @@ def run_case(case):
         # the whole step as one transition of the concrete walk model (Model/Walk.lean: cstep)
         res.emit("hx.wstep 0 %s %d" % (nibstr(p), 1 if use_cache else 0),
                  "fog %s met %s" % (plist([tuple(q) for q in fog._unexplored_prefixes]), newmet))
+        # … and of the raw-level walk model (Model/WalkD.lean: cstepD over the database as it is now)
+        res.emit("hx.wdstep 0 %s %d" % (nibstr(p), 1 if use_cache else 0),
+                 "fog %s met %s" % (plist([tuple(q) for q in fog._unexplored_prefixes]), newmet))
         nsteps += 1
         return True
 
@@ -200,6 +206,7 @@ def run_case(case):
             cache = TrieFrontierCache()
             res.emit("fog.cnew", "ok")
             res.emit("hx.wcnew", "ok")
+            res.emit("hx.wdcnew", "ok")
         if case.get("refog_at") and step_no == case["refog_at"]:
             # abandon the walk: fresh fog, same cache; what the new walk must find is judged from here on
             fog = HexaryTrieFog()
@@ -207,6 +214,7 @@ def run_case(case):
             fid = nfogs
             nfogs += 1
             res.emit("hx.wrefog", "ok")
+            res.emit("hx.wdrefog", "ok")
             met.clear()
             versions[:] = [dict(r.model)]
             mutated = False
